@@ -500,7 +500,12 @@ def _write_external_data(
         with contextlib.suppress(FileNotFoundError):
             os.rmdir(temporary_dir)
 
+    replaced_path = os.path.realpath(destination_path)
     for tensor in overwritten_tensors:
+        if os.path.realpath(tensor.path) != replaced_path:
+            # Another hard link of the old file: os.replace() re-pointed only the
+            # destination name, this tensor's file still holds the previous bytes.
+            continue
         tensor.invalidate()
         logger.warning(
             "External tensor %s referred to the overwritten destination and has "
